@@ -868,7 +868,22 @@ func (env *Env) specCall(sf *SpecFunc, argExprs []CExpr) Val {
 		}
 		rt := tenv.resolveType(sf.Ret)
 		uname := "u_" + sanitize(sf.Name)
-		return Val{E: env.ex.uf(uname, sorts, em.sortOf(rt), terms...), S: em.sortOf(rt), T: rt}
+		app := env.ex.uf(uname, sorts, em.sortOf(rt), terms...)
+		// results of an uninterpreted function live in the range of its declared Go result type
+		if lo, hi := intRange(rt); lo != nil && em.sortOf(rt) == sInt {
+			if len(sorts) == 0 {
+				em.global(fmt.Sprintf("(assert (and (<= %s %s) (<= %s %s)))", smtInt(lo), uname, uname, smtInt(hi)))
+			} else {
+				var bs, as []string
+				for i, s := range sorts {
+					bs = append(bs, fmt.Sprintf("(a%d %s)", i, s))
+					as = append(as, fmt.Sprintf("a%d", i))
+				}
+				call := "(" + uname + " " + strings.Join(as, " ") + ")"
+				em.global(fmt.Sprintf("(assert (forall (%s) (! (and (<= %s %s) (<= %s %s)) :pattern (%s))))", strings.Join(bs, " "), smtInt(lo), call, call, smtInt(hi), call))
+			}
+		}
+		return Val{E: app, S: em.sortOf(rt), T: rt}
 	}
 	inner := &Env{ex: env.ex, st: env.st, old: env.old, vars: map[string]Val{}, fn: nil, pkg: spkg, bound: env.bound, where: env.where + " in " + sf.Name}
 	for i, p := range sf.Params {
